@@ -47,7 +47,7 @@ def check_C01(run):
         sizes = [100, 1000, 3000, 10000, 20000]
     # adversarial families
     res = stage_families(run, sizes)
-    stage_judge_enum(run, res, "C01", name="judge_families")
+    stage_judge_enum(run, res, "C01", name="judge_families", replay=family_replay("C01"))
     # generated long queries and their near misses
     cases, g = stage_gen_trees(run, checks_parser.QUICK_KINDS if run.tier == "quick" else checks_parser.THOROUGH_KINDS, 2, ws=0, muts=2)
     res, _, _ = stage_groups(run, cases, observe=True)
